@@ -42,11 +42,11 @@ func (d *dbT) selectable(t *rapid.T, g *qgen, tb *tableT, forUpdate bool) (*qnod
 	}
 	k := gen.Uniform(t, "shape", 20)
 	switch {
-	case k == 0 && !forUpdate: // rename then where on the new names
+	case k == 0 || (forUpdate && k == 5): // rename then where on the new names
 		q = g.where(g.rename(q))
 	case k == 1: // extend then where
 		q = g.where(g.extend(q))
-	case k == 2 && !forUpdate && n == 0: // project: updateable iff it keeps a key
+	case (k == 2 || (forUpdate && (k == 6 || k == 7))) && n == 0: // project: updateable iff it keeps a key
 		p := g.project(q, false)
 		if p != q {
 			updateable = false
@@ -56,6 +56,9 @@ func (d *dbT) selectable(t *rapid.T, g *qgen, tb *tableT, forUpdate bool) (*qnod
 				}
 			}
 			q = p
+			if updateable && gen.Chance(t, "projwhere", 40) {
+				q = g.where(q)
+			}
 		}
 	case k == 3: // not updateable: summarize
 		q = g.summarize(q)
@@ -229,15 +232,35 @@ func (d *dbT) genStmt(t *rapid.T) *stmtT {
 		s.kind = "update"
 		q, updateable := d.selectable(t, g, tb, true)
 		s.q = q
-		nset := rng(t, "nset", 1, min(2, len(tb.cols)))
-		setCols := subsetOf(t, tb.colNames(), nset, nset, "setcols")
+		// the table columns the query still shows, with their names in the query
+		qname := map[string]string{}
+		var settable []string
+		if contains(q.ops(), "project") || contains(q.ops(), "remove") {
+			for _, c := range tb.colNames() {
+				if _, ok := q.outCol(c); ok {
+					qname[c] = c
+					settable = append(settable, c)
+				}
+			}
+		} else if len(q.out) >= len(tb.cols) { // where / rename / extend keep the table's columns first
+			for j, c := range tb.colNames() {
+				qname[c] = q.out[j].name
+				settable = append(settable, c)
+			}
+		}
+		if len(settable) == 0 {
+			s.skip = "update: no settable column"
+			return s
+		}
+		nset := rng(t, "nset", 1, min(2, len(settable)))
+		setCols := subsetOf(t, settable, nset, nset, "setcols")
 		var exprs []*exprT
 		var parts []string
 		eg := g.exprGen(q.out)
 		for _, c := range setCols {
 			e := eg.value(poolOf(c).typ, false)
 			exprs = append(exprs, e)
-			parts = append(parts, c+" = "+e.String())
+			parts = append(parts, qname[c]+" = "+e.String())
 		}
 		s.text = "update " + q.String() + " set " + strings.Join(parts, ", ")
 		if !updateable {
@@ -314,6 +337,20 @@ func (d *dbT) predictUpdate(s *stmtT, q *qnode, setCols []string, exprs []*exprT
 		}
 	}
 	s.count, s.changed, s.untouched = len(sel), len(sel), len(tb.rows)-len(sel)
+	// update through a key-keeping project: the columns that are projected
+	// away are blanked (known finding update-through-project-blanks-columns)
+	if contains(q.ops(), "project") || contains(q.ops(), "remove") {
+		for j, c := range tb.cols {
+			if _, ok := q.outCol(c.name); ok {
+				continue
+			}
+			for _, i := range sel {
+				if tb.rows[i][j] != "" {
+					s.known = "update-through-project-blanks-columns"
+				}
+			}
+		}
+	}
 	// the update iterates an index of the table while it changes it: a row
 	// whose index position moves forward and that still satisfies the query is
 	// met again (known finding update-revisits-moved-row)
@@ -324,7 +361,7 @@ func (d *dbT) predictUpdate(s *stmtT, q *qnode, setCols []string, exprs []*exprT
 				tb.rows = s.after[i : i+1]
 				r, err := d.eval(q)
 				tb.rows = saved
-				if err != nil || len(r.rows) > 0 {
+				if (err != nil || len(r.rows) > 0) && s.known == "" {
 					s.known = "update-revisits-moved-row"
 				}
 			}
@@ -395,111 +432,247 @@ func TestC24(t *testing.T) {
 	defer rec.Write()
 
 	rt.Check(t, rec, "statements", 1500, 20000, func(t *rapid.T) {
+		if gen.Chance(t, "bigsmall", 18) {
+			bigSmallCase(t, rec)
+			return
+		}
 		d := genDb(t)
 		d.build()
 		defer d.release()
 		nst := rng(t, "nstmts", 1, 3)
 		for si := 0; si < nst; si++ {
-			s := d.genStmt(t)
-			tb := s.table
-			if s.skip != "" {
-				if strings.Contains(s.skip, errDocumented.Error()) {
-					rec.Excluded("documented: \"\" ordered against number/boolean (StrictCompareDb class)")
-				} else {
-					rec.Label("skipped: " + strings.SplitN(s.skip, ":", 2)[0])
-				}
-				continue
-			}
-			// known findings of C24 (classes excluded by a predicate on the case)
-			known := s.known
-			hasWhere := s.q != nil && contains(s.q.ops(), "where")
-			if known == "" && (s.kind == "update" || s.kind == "delete") && hasWhere && hasEmptyUnique(tb) {
-				known = "unique-index-empty-value"
-			}
-			if known == "" && s.q != nil && orWithEmptyTerm(s.q) {
-				known = "or-with-empty-range"
-			}
-			if known == "" && s.q != nil && inWithEmpty(s.q) {
-				known = "where-in-empty-duplicates"
-			}
-			if known != "" {
-				if e, ok := kf.Known("C24", known); ok {
-					rec.Excluded(known)
-					rec.Known(e.What)
-					continue
-				}
-			}
-			before := copyRows(tb.rows)
-			desc := func() string {
-				return "statement: " + s.text + "\n" + d.describe()
-			}
-			th := &core.Thread{}
-			ut := d.db.NewUpdateTran()
-			n := -1
-			err := catch(func() { n = qry.DoAction(th, ut, s.text) })
-			if err != nil {
-				ut.Abort()
-				if err.runtime {
-					t.Fatalf("C24: statement failed with a runtime error: %v\n%s\n%s", err, desc(), err.stack)
-				}
-			} else {
-				var cerr *engineErr
-				cerr = catch(func() { ut.Commit() })
-				if cerr != nil {
-					t.Fatalf("C24: commit failed: %v\n%s", cerr, desc())
-				}
-			}
-			failed := err != nil
-			switch {
-			case s.wantErr && !failed:
-				t.Fatalf("C24: statement succeeded (count %d) but the model predicts an error (duplicate key / not updateable)\n%s\nmodel result would be:\n%s",
-					n, desc(), showRows(tb.colNames(), s.after, 40))
-			case !s.wantErr && !s.either && failed:
-				t.Fatalf("C24: statement failed: %v\nthe model predicts success, count %d\n%s", err, s.count, desc())
-			}
-			want := s.after
-			if failed {
-				want = before
-			} else if n != s.count {
-				t.Fatalf("C24: statement reported %d rows, model %d\n%s", n, s.count, desc())
-			}
-			// table contents, unordered and through every index
-			reads := append([][]string{nil}, tb.allIndexes()...)
-			for _, ix := range reads {
-				if ix != nil && len(ix) == 0 {
-					continue
-				}
-				got, rerr := readTable(d, tb, ix)
-				if rerr == errImpossible {
-					continue
-				}
-				if rerr != nil {
-					t.Fatalf("C24: reading %s by %v after the statement failed: %v\n%s", tb.name, ix, rerr, desc())
-				}
-				if !sameStrings(canonRows(tb.colNames(), got), canonRows(tb.colNames(), want)) {
-					what := "after the statement"
-					if failed {
-						what = "after the failed statement (" + err.Error() + ") and abort"
-					}
-					t.Fatalf("C24: table %s read by %v %s differs from the model\n%s\nengine: %d rows (statement returned %d)\n%s\nmodel: %d rows\n%s", tb.name, ix, what, desc(),
-						len(got), n, showRows(tb.colNames(), got, 40), len(want), showRows(tb.colNames(), want, 40))
-				}
-			}
-			tb.rows = want
-			nt := !failed && s.changed >= 1 && s.untouched >= 1
-			rec.Case(nt, s.text+"\n"+d.describe())
-			rec.Label("stmt_" + s.kind)
-			rec.LabelIf(failed && s.wantErr, "predicted_error_"+s.kind)
-			rec.LabelIf(failed, "error: "+errClass(err))
-			rec.LabelIf(s.either, "order_dependent_outcome")
-			rec.LabelIf(!failed && s.changed == 0, "no_row_changed")
-			rec.LabelIf(!failed && s.changed > 0, "changed_rows")
-			if nt && rec.WantSample(s.kind) {
-				rec.Sample(s.kind, map[string]any{"statement": s.text, "count": n,
-					"database_before": strings.Split(strings.TrimSpace(dbDescribeWith(d, tb, before)), "\n")})
-			}
+			judgeStmt(t, rec, d, d.genStmt(t))
 		}
 	})
+}
+
+// judgeStmt runs one statement and compares count and table contents with the
+// model's prediction.
+func judgeStmt(t *rapid.T, rec *ev.Rec, d *dbT, s *stmtT) {
+	tb := s.table
+	if s.skip != "" {
+		if strings.Contains(s.skip, errDocumented.Error()) {
+			rec.Excluded("documented: \"\" ordered against number/boolean (StrictCompareDb class)")
+		} else {
+			rec.Label("skipped: " + strings.SplitN(s.skip, ":", 2)[0])
+		}
+		return
+	}
+	// known findings of C24 (classes excluded by a predicate on the case)
+	known := s.known
+	hasWhere := s.q != nil && contains(s.q.ops(), "where")
+	if known == "" && (s.kind == "update" || s.kind == "delete") && hasWhere && hasEmptyUnique(tb) {
+		known = "unique-index-empty-value"
+	}
+	if known == "" && s.q != nil && orWithEmptyTerm(s.q) {
+		known = "or-with-empty-range"
+	}
+	if known == "" && s.q != nil && inWithEmpty(s.q) {
+		known = "where-in-empty-duplicates"
+	}
+	if known != "" {
+		if e, ok := kf.Known("C24", known); ok {
+			rec.Excluded(known)
+			rec.Known(e.What)
+			return
+		}
+	}
+	before := copyRows(tb.rows)
+	desc := func() string {
+		return "statement: " + s.text + "\n" + d.describe()
+	}
+	th := &core.Thread{}
+	ut := d.db.NewUpdateTran()
+	n := -1
+	err := catch(func() { n = qry.DoAction(th, ut, s.text) })
+	if err != nil {
+		ut.Abort()
+		if err.runtime {
+			t.Fatalf("C24: statement failed with a runtime error: %v\n%s\n%s", err, desc(), err.stack)
+		}
+	} else {
+		var cerr *engineErr
+		cerr = catch(func() { ut.Commit() })
+		if cerr != nil {
+			t.Fatalf("C24: commit failed: %v\n%s", cerr, desc())
+		}
+	}
+	failed := err != nil
+	switch {
+	case s.wantErr && !failed:
+		t.Fatalf("C24: statement succeeded (count %d) but the model predicts an error (duplicate key / not updateable)\n%s\nmodel result would be:\n%s",
+			n, desc(), showRows(tb.colNames(), s.after, 40))
+	case !s.wantErr && !s.either && failed:
+		t.Fatalf("C24: statement failed: %v\nthe model predicts success, count %d\n%s", err, s.count, desc())
+	}
+	want := s.after
+	if failed {
+		want = before
+	} else if n != s.count {
+		t.Fatalf("C24: statement reported %d rows, model %d\n%s", n, s.count, desc())
+	}
+	// table contents, unordered and through every index
+	reads := append([][]string{nil}, tb.allIndexes()...)
+	for _, ix := range reads {
+		if ix != nil && len(ix) == 0 {
+			continue
+		}
+		got, rerr := readTable(d, tb, ix)
+		if rerr == errImpossible {
+			continue
+		}
+		if rerr != nil {
+			t.Fatalf("C24: reading %s by %v after the statement failed: %v\n%s", tb.name, ix, rerr, desc())
+		}
+		if !sameStrings(canonRows(tb.colNames(), got), canonRows(tb.colNames(), want)) {
+			what := "after the statement"
+			if failed {
+				what = "after the failed statement (" + err.Error() + ") and abort"
+			}
+			t.Fatalf("C24: table %s read by %v %s differs from the model\n%s\nengine: %d rows (statement returned %d)\n%s\nmodel: %d rows\n%s", tb.name, ix, what, desc(),
+				len(got), n, showRows(tb.colNames(), got, 40), len(want), showRows(tb.colNames(), want, 40))
+		}
+	}
+	tb.rows = want
+	nt := !failed && s.changed >= 1 && s.untouched >= 1
+	rec.Case(nt, s.text+"\n"+d.describe())
+	rec.Label("stmt_" + s.kind)
+	rec.LabelIf(failed && s.wantErr, "predicted_error_"+s.kind)
+	rec.LabelIf(failed, "error: "+errClass(err))
+	rec.LabelIf(s.either, "order_dependent_outcome")
+	rec.LabelIf(!failed && s.changed == 0, "no_row_changed")
+	rec.LabelIf(!failed && s.changed > 0, "changed_rows")
+	if nt && rec.WantSample(s.kind) {
+		rec.Sample(s.kind, map[string]any{"statement": s.text, "count": n,
+			"database_before": strings.Split(strings.TrimSpace(dbDescribeWith(d, tb, before)), "\n")})
+	}
+}
+
+// bigSmallCase: `insert <join of a 60-300 row table and a 1-5 row table, in
+// either order> into dst`, dst having the columns of both sides. With such
+// sizes the optimizer reads the small table first, so for `tbig join tsmall`
+// the optimised query delivers its records in the opposite order to the parsed
+// one (a stale header would store the columns swapped).
+func bigSmallCase(t *rapid.T, rec *ev.Rec) {
+	pk := func(i int) string { return core.Pack(core.IntVal(i).(core.Packable)) }
+	n := rng(t, "bs_nbig", 60, 300)
+	big := &tableT{name: "tbig", cols: []colT{{name: "k", typ: tNum}, {name: "n1", typ: tNum}}, keys: [][]string{{"k"}}}
+	withS1 := gen.Chance(t, "bs_s1", 40)
+	if withS1 {
+		big.cols = append(big.cols, colT{name: "s1", typ: tStr})
+	}
+	if gen.Chance(t, "bs_bigidx", 40) {
+		big.indexes = [][]string{{"n1"}}
+	}
+	mul := rng(t, "bs_mul", 1, 9)
+	for i := 1; i <= n; i++ {
+		row := []string{pk(i), pk(1000 + (i*mul)%37)}
+		if withS1 {
+			row = append(row, strLits[i%len(strLits)].packed)
+		}
+		big.rows = append(big.rows, row)
+	}
+	small := &tableT{name: "tsmall", cols: []colT{{name: "k", typ: tNum}, {name: "n2", typ: tNum}}, keys: [][]string{{"k"}}}
+	if gen.Chance(t, "bs_smallkey", 30) {
+		small.keys = [][]string{{"k", "n2"}}
+	}
+	used := map[int]bool{}
+	var smallKs []int
+	for i := 0; i < rng(t, "bs_nsmall", 1, 5); i++ {
+		k := rng(t, "bs_smallk", 1, n+3)
+		if used[k] {
+			continue
+		}
+		used[k] = true
+		smallKs = append(smallKs, k)
+		small.rows = append(small.rows, []string{pk(k), pickOf(t, "bs_n2", numLits).packed})
+	}
+	dst := &tableT{name: "tdst", cols: []colT{{name: "n2", typ: tNum}, {name: "k", typ: tNum}, {name: "n1", typ: tNum}}, keys: [][]string{{"k"}}}
+	if withS1 && gen.Chance(t, "bs_dsts1", 70) {
+		dst.cols = append(dst.cols, colT{name: "s1", typ: tStr})
+	}
+	if gen.Chance(t, "bs_dstidx", 40) {
+		dst.indexes = [][]string{{"n2", "n1"}}
+	}
+	d := &dbT{tables: []*tableT{big, small, dst}}
+	g := &qgen{t: t, db: d}
+	var l, r *qnode = tableNode(big), tableNode(small)
+	if gen.Chance(t, "bs_wbig", 25) {
+		l = g.where(l)
+	}
+	if gen.Chance(t, "bs_wsmall", 20) {
+		r = g.where(r)
+	}
+	var q *qnode
+	shape := gen.Weighted(t, "bs_shape", []int{5, 3, 1, 1, 1})
+	switch shape {
+	case 0:
+		q = g.join("join", l, r)
+	case 1:
+		q = g.join("join", r, l)
+	case 2:
+		q = g.join("leftjoin", r, l)
+	case 3:
+		q = g.join("leftjoin", l, r)
+	default:
+		dst.cols = append(dst.cols, colT{name: "k2", typ: tNum})
+		rn := &qnode{op: "rename", src: r, from: []string{"k"}, to: []string{"k2"}, out: append([]colT(nil), r.out...)}
+		for i := range rn.out {
+			if rn.out[i].name == "k" {
+				rn.out[i].name = "k2"
+			}
+		}
+		lw := &qnode{op: "where", src: tableNode(big), out: big.cols,
+			expr: bin("<=", colExpr(big.cols[0]), constExpr(mkLit(fmt.Sprint(rng(t, "bs_timesmax", 1, 40)), tNum)), tBool)}
+		if gen.Chance(t, "bs_timesorder", 50) {
+			q = g.times(lw, rn)
+		} else {
+			q = g.times(rn, lw)
+		}
+	}
+	// rows already in the destination (sometimes colliding with the source)
+	for i := 0; i < rng(t, "bs_ndst", 0, 2); i++ {
+		k := n + 10 + i
+		if len(smallKs) > 0 && gen.Chance(t, "bs_collide", 15) {
+			k = smallKs[0]
+		}
+		row := make([]string, len(dst.cols))
+		row[dst.colIndex("k")] = pk(k)
+		row[dst.colIndex("n1")] = pickOf(t, "bs_dn1", numLits).packed
+		if violates(dst, append(copyRows(dst.rows), row)) == "" {
+			dst.rows = append(dst.rows, row)
+		}
+	}
+	s := &stmtT{kind: "insert-query", table: dst, q: q, text: "insert " + q.lhs() + " into " + dst.name}
+	src, err := d.eval(q)
+	if err != nil {
+		rec.Label("skipped: bigsmall " + strings.SplitN(err.Error(), ":", 2)[0])
+		return
+	}
+	s.after = copyRows(dst.rows)
+	for _, row := range src.rows {
+		nr := make([]string, len(dst.cols))
+		for i, c := range dst.cols {
+			if j := src.idx(c.name); j >= 0 {
+				nr[i] = row[j]
+			}
+		}
+		s.after = append(s.after, nr)
+	}
+	s.count, s.changed, s.untouched = len(src.rows), len(src.rows), len(dst.rows)
+	s.wantErr = violates(dst, s.after) != ""
+	d.build()
+	defer d.release()
+	// does the optimised source read the tables in the other order?
+	if x, serr := setup(d, q.String(), src.cols, planT{name: "setup-read", mode: qry.ReadMode, use: "none", frac: 1}); serr == nil {
+		text := q.String()
+		if (strings.Index(text, "tbig") < strings.Index(text, "tsmall")) != (strings.Index(x.strat, "tbig") < strings.Index(x.strat, "tsmall")) {
+			rec.Label("insert_source_operands_reversed_by_optimizer")
+		}
+		x.close()
+	}
+	rec.Label("insert_source_big_small_" + []string{"join", "join", "leftjoin", "leftjoin", "times"}[shape])
+	judgeStmt(t, rec, d, s)
 }
 
 func dbDescribeWith(d *dbT, tb *tableT, rows [][]string) string {
